@@ -1,4 +1,5 @@
 import AdfObdd.StreamFull
+import AdfObdd.StreamChain
 /-! # C19 — the streaming mirror reproduces the producer's node table under every schedule
 
 `StreamF.recv` is a literal model of `Bdd::recv`; channels are FIFO lists; an event sequence is
@@ -6,7 +7,14 @@ any interleaving of producer operations (each creating 0..many nodes, each sent)
 single messages into the relay's channel, relay polls, receiver polls (and polls on the producer,
 which has no receiving end).  All statements are for **every** event sequence from the state in
 which the three stores are fresh.  The `_store` versions take a real diagram store (the proved
-`Store` with `stepOp`) as the producer. -/
+`Store` with `stepOp`) as the producer.
+
+**Relay chains of arbitrary length** (`StreamC`, section "relay chain" below): producer → store₀ → store₁ → …
+→ store_{k-1}, every store a `with_sender_receiver` relay, the last one with nobody behind it; events
+additionally `poll i t` for every store and `dropFrom i` (the stores from `i` on are dropped: store `i-1` keeps
+forwarding into a channel without receiver, the failing `send` is ignored as in the code).  `chain_*` are
+the statements for every `k` and every schedule; the one-relay system above is the chain of length 2
+(`one_relay_is_chain2`). -/
 namespace C19
 open StreamF
 
@@ -249,3 +257,138 @@ example :
     upstream (run [.create [10, 11], .deliver 2, .relayPoll 3] (Sys.init [0, 1])) := by decide
 
 end C19
+
+/-! ## relay chain of arbitrary length -/
+namespace C19
+open StreamC
+
+/-- **every store of a chain of any length `k` holds a prefix of the producer's table**, verbatim and with the
+same numbering: after consuming `r.k` messages exactly the producer's first `2 + r.k` nodes; no store
+overtakes the one before it - for every schedule (creations, deliveries, polls anywhere, drops) -/
+theorem chain_mirror_prefix {α : Type} (c : List α) (k : Nat) (evs : List (StreamC.Ev α)) :
+    let s := StreamC.run evs (Chain.init c k)
+    (∀ r ∈ s.relays, r.tbl = s.prod.take (c.length + r.k) ∧ r.tbl.length = c.length + r.k ∧
+        c.length + r.k ≤ s.prod.length) ∧
+    s.relays.Pairwise (fun a b => b.k ≤ a.k) := by
+  intro s
+  have h := StreamC.run_inv c evs _ (StreamC.Inv.init c k)
+  have ⟨a, b⟩ := h.mirror
+  obtain ⟨up, _, h2⟩ := h
+  exact ⟨fun r hr => ⟨(a r hr).1, rinv_len c up _ h2 r hr, (a r hr).2⟩, b⟩
+
+/-- handle by handle: whatever a store of the chain holds at handle `t` is the producer's node at `t` -/
+theorem chain_same_node {α : Type} (c : List α) (k : Nat) (evs : List (StreamC.Ev α)) :
+    let s := StreamC.run evs (Chain.init c k)
+    ∀ r ∈ s.relays, ∀ t, t < r.tbl.length → r.tbl[t]? = s.prod[t]? := by
+  intro s r hr t ht
+  have h := (chain_mirror_prefix c k evs).1 r hr
+  have e : r.tbl[t]? = (s.prod.take (c.length + r.k))[t]? := by rw [← h.1]
+  rw [e, List.getElem?_take]
+  rw [if_pos (by rw [← h.2.1]; exact ht)]
+
+/-- **a poll that answers `true` has the handle, with the producer's node**: `store_i.recv(t)` placed after any
+schedule answers "found" iff `t` is present in store `i` afterwards, and then the node at `t` is the producer's -/
+theorem chain_poll_found {α : Type} (c : List α) (k : Nat) (evs : List (StreamC.Ev α)) (i t : Nat) :
+    let s := StreamC.run evs (Chain.init c k)
+    let r := StreamC.stepEv s (.poll i t)
+    (r.2 = none ↔ s.relays.length ≤ i) ∧
+    ∀ x, r.1.relays[i]? = some x → ((r.2 = some true ↔ t < x.tbl.length) ∧ (r.2 = some true → x.tbl[t]? = r.1.prod[t]?)) := by
+  intro s r
+  have ⟨_, b, cc⟩ := pollAt_found t s.relays i
+  refine ⟨b, ?_⟩
+  intro x hx
+  have h1 := cc x hx
+  refine ⟨h1, ?_⟩
+  intro hf
+  have := chain_same_node c k (evs ++ [.poll i t])
+  simp only [StreamC.run, List.foldl_append, List.foldl_cons, List.foldl_nil] at this
+  exact this x (List.mem_of_getElem? hx) t (h1.mp hf)
+
+/-- **once all channels are drained every mirror equals the producer's table**, for every chain length -/
+theorem chain_drained_equal {α : Type} (c : List α) (k : Nat) (evs : List (StreamC.Ev α)) :
+    let s := StreamC.run evs (Chain.init c k)
+    s.pend = [] → (∀ r ∈ s.relays, r.q = []) → ∀ r ∈ s.relays, r.tbl = s.prod := by
+  intro s hp hq
+  exact (StreamC.run_inv c evs _ (StreamC.Inv.init c k)).drained hp hq
+
+/-- draining is always possible: deliver what is pending and let every store, front to back, ask for a
+handle beyond the producer's table -/
+theorem chain_drain_reaches_equal {α : Type} (c : List α) (k : Nat) (evs : List (StreamC.Ev α)) (T : Nat) :
+    let s := StreamC.run evs (Chain.init c k)
+    s.prod.length ≤ T →
+    let s' := StreamC.run (.deliver s.pend.length :: (List.range s.relays.length).map (fun j => StreamC.Ev.poll j T)) s
+    s'.prod = s.prod ∧ s'.pend = [] ∧ ∀ r ∈ s'.relays, r.q = [] ∧ r.tbl = s.prod := by
+  intro s hT
+  exact (StreamC.run_inv c evs _ (StreamC.Inv.init c k)).drain T hT
+
+/-- **a relay whose downstream receiver was dropped keeps mirroring**: deleting from any schedule every event
+that concerns the stores `i, i+1, …` (their polls; their being dropped, at whatever point) changes nothing in
+the producer, the pending messages and the stores `0 … i-1` (tables, inboxes, counters) -/
+theorem chain_relay_independent_of_downstream {α : Type} (c : List α) (k i : Nat) (evs : List (StreamC.Ev α)) :
+    StreamC.upstream i (StreamC.run evs (Chain.init c k)) =
+    StreamC.upstream i (StreamC.run (evs.filter (fun e => !StreamC.downstreamEv i e)) (Chain.init c k)) :=
+  StreamC.upstream_independent i evs _ _ rfl
+
+/-- … and store `j < i` gives the same answer to a poll placed after either schedule -/
+theorem chain_answers_independent_of_downstream {α : Type} (c : List α) (k i j t : Nat) (hj : j < i)
+    (evs : List (StreamC.Ev α)) :
+    (StreamC.stepEv (StreamC.run evs (Chain.init c k)) (.poll j t)).2 =
+    (StreamC.stepEv (StreamC.run (evs.filter (fun e => !StreamC.downstreamEv i e)) (Chain.init c k)) (.poll j t)).2 :=
+  (StreamC.upstream_step i _ _ (.poll j t) (chain_relay_independent_of_downstream c k i evs)
+    (by simp [StreamC.downstreamEv]; omega)).2
+
+/-- after the stores from `i` on are dropped, the remaining chain still satisfies everything above: in
+particular store `i-1`, now without receiver behind it, still holds a prefix and still ends up equal -/
+theorem chain_after_drop {α : Type} (c : List α) (k i : Nat) (evs more : List (StreamC.Ev α)) :
+    let s := StreamC.run (evs ++ [.dropFrom i] ++ more) (Chain.init c k)
+    s.relays.length ≤ i ∧ ∀ r ∈ s.relays, r.tbl = s.prod.take (c.length + r.k) := by
+  intro s
+  exact ⟨StreamC.length_after_drop i evs more _, fun r hr => ((chain_mirror_prefix c k _).1 r hr).1⟩
+
+/-- the one-relay system of the first part is the chain of length 2 (relay = store 0, receiver = store 1) -/
+theorem one_relay_is_chain2 {α : Type} (c : List α) (evs : List (StreamF.Ev α)) :
+    StreamC.ofSys (StreamF.run evs (StreamF.Sys.init c)) = StreamC.run (evs.map StreamC.ofEv) (Chain.init c 2) := by
+  rw [StreamC.ofSys_run, StreamC.ofSys_init]
+
+/-- with a real diagram store as producer and a chain of any length: for every valid interleaving of
+diagram-building operations with deliveries, polls and drops, the producer's table stays canonical, every
+store holds exactly its first `2 + consumed` nodes, and drained channels mean identical tables -/
+theorem chain_mirror_prefix_store (k : Nat) (evs : List StreamC.PEv) (hv : StreamC.pevsValid evs 2) :
+    let p := StreamC.prun evs (StreamC.PChain.init k)
+    WF p.st ∧
+    (∀ r ∈ p.ch.relays, r.tbl = p.st.nodes.toList.take (2 + r.k) ∧ 2 + r.k ≤ p.st.nodes.size) ∧
+    (p.ch.pend = [] → (∀ r ∈ p.ch.relays, r.q = []) → ∀ r ∈ p.ch.relays, r.tbl = p.st.nodes.toList) := by
+  intro p
+  have h := StreamC.prun_inv evs (StreamC.PChain.init k) (StreamC.PInv.init k) hv
+  have hc : (Store.init.nodes.toList).length = 2 := rfl
+  have ⟨a, _⟩ := h.inv.mirror
+  refine ⟨h.wf, ?_, ?_⟩
+  · intro r hr
+    have := a r hr
+    rw [hc, h.tbl] at this
+    exact ⟨this.1, by simpa using this.2⟩
+  · intro hp hq r hr
+    rw [← h.tbl]; exact h.inv.drained hp hq r hr
+
+/-! non-vacuity: a chain of four stores; polls fall between the two node creations of one operation; a poll
+for a handle that is still in flight upstream fails, the same poll succeeds after the stores before it have
+forwarded; then store 2 and 3 are dropped and store 1 keeps mirroring -/
+example :
+    let s := StreamC.run [.create [10, 11], .deliver 1, .poll 2 2, .poll 0 2, .poll 1 2, .poll 2 2, .create [12],
+                          .dropFrom 2, .deliver 2, .poll 0 4, .poll 1 3] (Chain.init [0, 1] 4)
+    s.prod = [0, 1, 10, 11, 12] ∧ s.relays.map (·.tbl) = [[0, 1, 10, 11, 12], [0, 1, 10, 11]] ∧
+    s.relays.map (·.q) = [[], [12]] := by decide
+example : (StreamC.stepEv (StreamC.run [.create [10, 11], .deliver 2, .poll 0 3] (Chain.init [0, 1] 3)) (.poll 1 2)).2 = some true ∧
+          (StreamC.stepEv (StreamC.run [.create [10, 11], .deliver 2] (Chain.init [0, 1] 3)) (.poll 1 2)).2 = some false ∧
+          (StreamC.stepEv (StreamC.run [.create [10, 11], .deliver 2] (Chain.init [0, 1] 3)) (.poll 3 2)).2 = none := by decide
+example : StreamC.pevsValid [.op (.var 0), .ev (.deliver 1), .op (.not 2), .ev (.poll 0 2), .ev (.poll 2 2), .ev (.dropFrom 1)] 2 := by
+  simp [StreamC.pevsValid, Op.valid, VBOT]
+
+end C19
+#print axioms C19.chain_mirror_prefix
+#print axioms C19.chain_poll_found
+#print axioms C19.chain_drained_equal
+#print axioms C19.chain_drain_reaches_equal
+#print axioms C19.chain_relay_independent_of_downstream
+#print axioms C19.chain_after_drop
+#print axioms C19.chain_mirror_prefix_store
